@@ -517,6 +517,20 @@ where Pr: VInt + Into<f64>, f64: AsPrimitive<Pr> + AsPrimitive<Sy>, Sy: SymInt +
             rep.class("leaky_model");
             beat(&case.to_string());
             match mode {
+                "c03" | "c10" | "c20" if Sy::min_value().to_i64() < 0 && (n as i64 - 1) > Sy::max_value().to_i64() && Sy::max_value().to_i64() < (1i64 << 31) - 1
+                        && guarded(|| exp.chk_dec::<_, P>(&name, &model)).map(|r| r.is_err()).unwrap_or(false) => {
+                    // Signed symbol type whose support spans more than Symbol::MAX symbols: LeakyQuantizer::new sign-extends the span
+                    // (`end.wrapping_sub(start).as_()`), so it either refuses the support ("support too large") or - where the
+                    // sign-extended span happens to fit, e.g. i8 -128..=127 with u16 probabilities at PRECISION 16 - computes a free
+                    // weight of 0: the model then gives one quantum to every symbol and the rest to the last one.  That is not the
+                    // table FixedPoint.tla predicts, but it IS a valid, exactly invertible model, which is all C03 states: only the
+                    // contract is checked here and the discrepancy is counted (see DESIGN.md, "observations outside the listed
+                    // properties").
+                    rep.class("leaky_signed_full_range_free_weight_discrepancy");
+                    let cands: Vec<Sy> = (0..n as i64 + 2).filter_map(|i| Sy::from_i64(min - 1 + i)).collect();
+                    run!(rep, case, contract_dec::<_, P>(&name, &model).map(|_| 1));
+                    run!(rep, case, contract_enc::<_, P>(&name, &model, &cands).map(|_| 1));
+                }
                 "c03" | "c10" | "c20" => {
                     run!(rep, case, exp.chk_dec::<_, P>(&name, &model));
                     if hint == Hint::Exact || mode == "c20" { run!(rep, case, exp.chk_enc::<_, P>(&name, &model)); if mode == "c20" { run!(rep, case, exp.chk_iter::<_, P>(&name, &model)); } }
